@@ -1,6 +1,9 @@
 (* C18 — ReadLine until EOF returns exactly the lines of the stream *)
 From Verif Require Import Base.Common Base.Cstr Model.C18.
 
+Lemma last_is_rev l c : last_is l c = match rev l with [] => Crash | x :: _ => Ok (x =? c) end.
+Proof. unfold last_is. rewrite <- rev_alt. reflexivity. Qed.
+
 Lemma rbl_cases : forall s,
   (exists l r, ~ In 10 l /\ s = l ++ 10 :: r /\ read_bytes_lf s = (l ++ [10], r)) \/
   (~ In 10 s /\ read_bytes_lf s = (s, [])).
@@ -43,7 +46,7 @@ Lemma cr_step' l (rest : list Z) :
            (fun b => let line := if b then removelast l else l in Ok (Some (line, rest)))
   = Ok (Some (strip_cr l, rest)).
 Proof.
-  unfold strip_cr, last_is. destruct l as [|x l]; [reflexivity|].
+  unfold strip_cr. destruct l as [|x l]; [reflexivity|]. rewrite last_is_rev.
   destruct (rev (x :: l)) as [|c r] eqn:R.
   - apply (f_equal (@rev Z)) in R. rewrite rev_involutive in R. discriminate.
   - cbn [res_bind]. destruct (c =? 13); [|reflexivity].
@@ -63,7 +66,7 @@ Proof.
         + cbn in S. injection S as -> S. destruct (IH (fun H => N (or_intror H)) l' (fun H => N' (or_intror H)) S) as [-> ->].
           split; reflexivity. }
     rewrite R. rewrite match_nonnil by (destruct l; discriminate).
-    unfold last_is at 1. rewrite rev_app_distr. cbn [rev app res_bind Z.eqb Pos.eqb].
+    rewrite last_is_rev. rewrite rev_app_distr. cbn [rev app res_bind Z.eqb Pos.eqb].
     rewrite removelast_last. apply cr_step'.
   - exfalso. apply N'. apply in_or_app. right. left. reflexivity.
 Qed.
@@ -73,7 +76,7 @@ Proof.
   intros N NE. unfold read_line. destruct (rbl_cases l) as [[l' [r' [N' [S R]]]]|[N' R]].
   - exfalso. apply N. rewrite S. apply in_or_app. right. left. reflexivity.
   - rewrite R. rewrite match_nonnil by exact NE.
-    unfold last_is at 1. destruct (rev l) as [|c r] eqn:Rv.
+    rewrite last_is_rev. destruct (rev l) as [|c r] eqn:Rv.
     + apply (f_equal (@rev Z)) in Rv. rewrite rev_involutive in Rv. cbn in Rv. congruence.
     + assert (Hc : c <> 10).
       { intros ->. apply N. apply in_rev. rewrite Rv. left. reflexivity. }
